@@ -380,6 +380,30 @@ func (s *Sim) processHookEvents() {
 	}
 }
 
+// noteStale: the session is being discarded; on a session that has had messages held back, every message that went out
+// may have lost its in-memory record already (recorded deferred-release defect), in which case discarding the session
+// does not remove its store record.
+func (ss *Session) noteStale() {
+	if !ss.Taint["deferred"] {
+		return
+	}
+	if ss.StaleDeferred == nil {
+		ss.StaleDeferred = map[string]bool{}
+	}
+	for _, o := range ss.Out {
+		if o.Sent {
+			ss.StaleDeferred[o.M.ID] = true
+		}
+	}
+}
+
+func (ss *Session) noteOwed(id string) {
+	if ss.EverOwed == nil {
+		ss.EverOwed = map[string]bool{}
+	}
+	ss.EverOwed[id] = true
+}
+
 func (ss *Session) removeOut(o *OutMsg) {
 	for i, x := range ss.Out {
 		if x == o {
